@@ -383,6 +383,8 @@ def builtin_const(segs):
         return Float(float('-inf'))
     if t in (('Ordering', 'Less'), ('Ordering', 'Equal'), ('Ordering', 'Greater')):
         return Enum('Ordering', t[1], [])
+    if t == ('Value', 'Null'):
+        return Enum('Value', 'Null', [])
     if segs[-1] == 'MAIN_SEPARATOR':
         return Ch(ord('/'))
     return None
@@ -593,6 +595,9 @@ def interp_type_head(interp, t):
     return h, a
 
 
+COLLECT_TARGETS = {'Vec', 'VecDeque', '[]', 'Box', 'String', 'HashSet', 'BTreeSet', 'HashMap', 'BTreeMap', 'Result', 'Option', 'PathBuf'}
+
+
 def collect_into(interp, it, target, targs):
     if target in ('Vec', 'VecDeque', '[]', 'Box'):
         return Vec([_detach(x) for x in it])
@@ -686,6 +691,15 @@ def call_method(interp, v, name, args, pl, hint, tf, ctx):
             f = ORD_METHODS.get(name)
             if f is not None:
                 return f(interp, v, args, pl, hint, tf)
+        elif v.ty == 'Value':
+            r = _json_model.value_method(interp, v, name, args, pl, hint)
+            if r is not NotImplemented:
+                return r
+        else:
+            from .models import syn as _syn
+            r = _syn.enum_method(interp, v, name, args)
+            if r is not NotImplemented:
+                return r
     elif isinstance(v, Vec):
         f = VEC_METHODS.get(name)
         if f is not None:
@@ -1230,3 +1244,8 @@ EXT_PATH_MODELS.append(_hasher_paths)
 
 OPT_METHODS = RES_METHODS = VEC_METHODS = ITER_METHODS = MAP_METHODS = SET_METHODS = {}
 from . import builtins_coll  # noqa: E402  (fills the method tables above)
+from .models import syn as _syn_model  # noqa: E402,F401
+from .models import fs as _fs_model  # noqa: E402,F401
+from .models import json as _json_model  # noqa: E402,F401
+from .models import tera as _tera_model  # noqa: E402,F401
+from .models import misc as _misc_model  # noqa: E402,F401
